@@ -15,8 +15,8 @@ RULE = ("all strings over ACGT with 1<=n<=N (N=6 quick, 8 thorough) x modes {lin
         "through complement_dsDNA and compared with the reference complement; non-trivial = n>=2; distinct = "
         "distinct (mode, sequence, labels, offset); plus every single-position substitution by an unknown name "
         "(n<=4) which must raise")
-ASSUMPTIONS = ["input residue graphs have the shape polyply's own sequence readers produce: integer node keys "
-               "0..n-1 in order, resid = key + offset + 1",
+ASSUMPTIONS = ["input residue graphs have the shape polyply's readers produce: consecutive integer node keys in sequence order "
+               "starting at 0 (sequence files) or at another number (.json files), resid = position + offset + 1",
                "the gen_params -dsdna .itp view is checked for all sequences with n<=3 (evidence key 'programs')"]
 BUDGET = {"quick": 240, "thorough": 1500}
 
@@ -43,18 +43,19 @@ def names_for(seq, mode):
     return names
 
 
-def build(names, mode, labels, offset):
+def build(names, mode, labels, offset, koff=0):
+    """node keys koff..koff+n-1 (sequence files give 0..n-1, .json files may number their nodes from 1 or anywhere)"""
     g = nx.Graph()
     n = len(names)
     for i, name in enumerate(names):
-        g.add_node(i, resname=name, resid=i + 1 + offset)
+        g.add_node(i + koff, resname=name, resid=i + 1 + offset)
     for i in range(n - 1):
-        g.add_edge(i, i + 1)
+        g.add_edge(i + koff, i + 1 + koff)
         if labels:
-            g.edges[(i, i + 1)]["lab"] = f"L{i}"
+            g.edges[(i + koff, i + 1 + koff)]["lab"] = f"L{i}"
     if mode == "circ":
-        g.add_edge(0, n - 1)
-        g.edges[(0, n - 1)]["linktype"] = "circle"
+        g.add_edge(koff, n - 1 + koff)
+        g.edges[(koff, n - 1 + koff)]["linktype"] = "circle"
     return g
 
 
@@ -72,20 +73,20 @@ def graph_digest(mm, nodes):
     return nd, ed
 
 
-def check_one(seq, mode, labels, offset):
+def check_one(seq, mode, labels, offset, koff=0):
     from polyply.src.meta_molecule import MetaMolecule
     from polyply.src.gen_dna import complement_dsDNA
     viols = []
     names = names_for(seq, mode)
     n = len(names)
-    case = {"seq": seq, "mode": mode, "labels": labels, "offset": offset}
+    case = {"seq": seq, "mode": mode, "labels": labels, "offset": offset, "koff": koff}
 
     def bad(assertion, msg, tags=()):
         viols.append(dict(assertion=assertion, tags=list(tags), message=msg, case=case, detail={}))
 
-    g = build(names, mode, labels, offset)
+    g = build(names, mode, labels, offset, koff)
     mm = MetaMolecule(g, force_field=None, mol_name="dna")
-    before = graph_digest(mm, range(n))
+    before = graph_digest(mm, range(koff, koff + n))
     try:
         complement_dsDNA(mm)
     except Exception as exc:  # noqa
@@ -94,10 +95,10 @@ def check_one(seq, mode, labels, offset):
     if len(mm.nodes) != 2 * n:
         bad("two-n-residues", f"{len(mm.nodes)} residues for n={n}")
         return viols
-    if graph_digest(mm, range(n)) != before:
-        bad("original-strand-unchanged", f"first strand changed: {before} -> {graph_digest(mm, range(n))}")
+    if graph_digest(mm, range(koff, koff + n)) != before:
+        bad("original-strand-unchanged", f"first strand changed: {before} -> {graph_digest(mm, range(koff, koff + n))}")
     order = list(mm.nodes)
-    if order[:n] != list(range(n)):
+    if order[:n] != list(range(koff, koff + n)):
         bad("original-strand-unchanged", f"node order {order}")
     by_resid = {mm.nodes[k]["resid"]: k for k in mm.nodes}
     if sorted(by_resid) != list(range(1 + offset, 2 * n + 1 + offset)) or len(by_resid) != 2 * n:
@@ -112,7 +113,7 @@ def check_one(seq, mode, labels, offset):
     # edges of the new strand
     new_keys = {by_resid[n + k + offset] for k in range(1, n + 1)}
     exp_edges = {}
-    old_attr = {tuple(sorted((a, b))): dict(d) for a, b, d in g.edges(data=True)}
+    old_attr = {tuple(sorted((a - koff, b - koff))): dict(d) for a, b, d in g.edges(data=True)}
     for k in range(1, n):
         # new edge (n+k, n+k+1) mirrors old edge between residues n+1-k and n-k (keys n-k, n-k-1)
         exp_edges[frozenset((n + k, n + k + 1))] = old_attr[(n - k - 1, n - k)]
@@ -218,7 +219,7 @@ def run_case(case):
         if case.get("reject"):
             v = check_reject(case["seq"], case["mode"], case["pos"], case["unk"])
         else:
-            v = check_one(case["seq"], case["mode"], case["labels"], case["offset"])
+            v = check_one(case["seq"], case["mode"], case["labels"], case["offset"], case.get("koff", 0))
         return dict(evals=1, keys=[], violations=v, stats={})
     evals, keys, viols = 0, [], []
     offsets = [0] if case["tier"] == "quick" else [0, 4]
@@ -232,10 +233,11 @@ def run_case(case):
                 continue
             for labels in (False, True):
                 for off in offsets:
-                    viols += check_one(seq, mode, labels, off)
-                    evals += 1
-                    if n >= 2:
-                        keys.append(f"{mode}:{seq}:{int(labels)}:{off}")
+                    for koff in ((0, 1) if n <= 4 or case["tier"] == "thorough" else (0,)) + ((7,) if n <= 3 else ()):
+                        viols += check_one(seq, mode, labels, off, koff)
+                        evals += 1
+                        if n >= 2:
+                            keys.append(f"{mode}:{seq}:{int(labels)}:{off}:{koff}")
             if n <= 4:
                 for pos in range(n):
                     for unk in UNKNOWN[:2] if n > 2 else UNKNOWN:
